@@ -10,15 +10,16 @@ import (
 // C03 — caches are transparent.
 
 type c02Case struct {
-	File  FileSpec `json:"file"`
-	Hist  []ROp    `json:"hist"`
-	RD    int      `json:"rd"`
-	Procs int      `json:"procs"`
-	Kind  string   `json:"reader_kind"`
-	Chunk int      `json:"chunk"`
-	EOFD  bool     `json:"eof_with_data"`
-	Delay int      `json:"delay"`
-	Stmt  bool     `json:"stmt_yields,omitempty"`
+	File   FileSpec `json:"file"`
+	Hist   []ROp    `json:"hist"`
+	RD     int      `json:"rd"`
+	Procs  int      `json:"procs"`
+	Kind   string   `json:"reader_kind"`
+	Chunk  int      `json:"chunk"`
+	EOFD   bool     `json:"eof_with_data"`
+	Delay  int      `json:"delay"`
+	Stmt   bool     `json:"stmt_yields,omitempty"`
+	ZeroRd bool     `json:"zero_reads,omitempty"`
 }
 
 type c02 struct{ cached bool }
@@ -42,7 +43,7 @@ func (p c02) Runs(tier string) int {
 }
 func (c02) New() interface{} { return &c02Case{} }
 func (p c02) Rule() string {
-	base := "BGZF files built by an independent encoder (1..12 members of 1..BS bytes, empty members interspersed, extra subfields before/after BC, with/without EOF marker); seeded histories (<=30 ops) over {Seek(member, off<=len), Read(n), ReadByte, Blocked on/off, reread after Seek(LastChunk.Begin), BlockLen}; rd in {0,1,2,3,4} (0 resolves through simulated GOMAXPROCS), Read+Seek reader kinds, short reads, disk delays; every result checked against the flat-stream model with a logical position, LastChunk through translated positions. "
+	base := "BGZF files built by an independent encoder (1..12 members of 1..BS bytes, empty members interspersed, extra subfields before/after BC, with/without EOF marker); seeded histories (<=30 ops) over {Seek(member, off<=len), Read(n), ReadByte, Blocked on/off, reread after Seek(LastChunk.Begin), BlockLen}; rd in {0,1,2,3,4} (0 resolves through simulated GOMAXPROCS), Read+Seek reader kinds, short reads, reads of (0, nil), final bytes with io.EOF, disk delays; every result checked against the flat-stream model with a logical position, LastChunk through translated positions. "
 	if p.cached {
 		return base + "C03: plus SetCache(LRU|FIFO|Random x plain|StatsRecorder, cap 1..5, or nil) at drawn points, seeks biased to recently left members; the same history is executed by an uncached reader in the same run and every (bytes, error, raw LastChunk) triple must be identical; statement-level yields inside bgzf/cache. non-trivial: >=1 seek to a previously visited member after a cache was set AND rd>1 AND >=1 preemptive switch; distinct = (case, schedule signature)"
 	}
@@ -88,6 +89,7 @@ func (p c02) Gen(t *Tape, tier string, run int) interface{} {
 		c.Kind = "read+seek"
 		c.Chunk = t.Pick("work", 0, 2)
 	}
+	c.ZeroRd = t.Chance("work", 1, 5)
 	return c
 }
 
@@ -103,10 +105,10 @@ func (p c02) Exec(x *Exec, ci interface{}) *Verdict {
 	x.StmtYields = p.cached
 	x.StmtAll = c.Stmt
 	exec := func(phase string, caches bool) (*histRunner, *Violation, string) {
-		file := &File{X: x, Name: "f", Data: img, Chunk: c.Chunk, EOFWithData: c.EOFD, MaxDelay: c.Delay}
+		file := &File{X: x, Name: "f", Data: img, Chunk: c.Chunk, EOFWithData: c.EOFD, MaxDelay: c.Delay, ZeroReads: c.ZeroRd}
 		var hr *histRunner
 		var bad *Violation
-		est := estReadSteps(len(img), c.Chunk, c.Kind, c.Delay)*(2+len(c.Hist)/4) + 200*len(c.Hist)
+		est := estReadSteps(len(img), c.Chunk, c.Kind, c.Delay)*(2+len(c.Hist)/4)*3/2 + 200*len(c.Hist)
 		res := x.RunSim(phase, est, func() {
 			r, err := bgzf.NewReader(file.As(c.Kind), c.RD)
 			if err != nil {
@@ -220,9 +222,9 @@ func (p c02) Shrinks(ci interface{}) []interface{} {
 		n.RD = 1
 		out = append(out, &n)
 	}
-	if c.Chunk != 0 || c.EOFD || c.Delay != 0 || c.Kind != "read+seek" {
+	if c.Chunk != 0 || c.EOFD || c.Delay != 0 || c.Kind != "read+seek" || c.ZeroRd {
 		n := *c
-		n.Chunk, n.EOFD, n.Delay, n.Kind = 0, false, 0, "read+seek"
+		n.Chunk, n.EOFD, n.Delay, n.Kind, n.ZeroRd = 0, false, 0, "read+seek", false
 		out = append(out, &n)
 	}
 	if c.File.EOF {
